@@ -35,12 +35,12 @@ func defflavorFromList(args slip.List, p *slip.Printer) Node {
 func (df *Defflavor) layout(left int) (w int) {
 	df.x = left
 	w = 11                        // (defflavor + space
-	w += df.children[0].layout(w) // flavor name
+	w += df.children[0].layout(left + w) // flavor name
 	w++
 	ax := w
-	w += df.children[1].layout(w) // variables list
+	w += df.children[1].layout(left + w) // variables list
 	df.children[2].setNewline(true)
-	cw := df.children[2].layout(ax) // inherited flavor list
+	cw := df.children[2].layout(left + ax) // inherited flavor list
 	if w < cw+ax {
 		w = cw + ax
 	}
